@@ -1,15 +1,15 @@
 SPECIFICATION Spec
 CONSTANTS
-  Ids = {"x", "y", "z"}
-  MaxLen = 8
+  Ids = {"x"}
+  MaxLen = 3
   MaxDepth = 2
-  MixKinds = TRUE
+  MixKinds = FALSE
   AsmForms = TRUE
-  AsmFirst = FALSE
-  Kinds = {"obj", "func"}
+  AsmFirst = TRUE
+  Kinds = {"obj"}
   DevsOn = {"ThreadNoTentative", "ThreadMismatchNotDiagnosed", "InlineLateExternal", "NoUsedInternalUndefDiag"}
-  OkPrefix = TRUE
-  SampleMod = 1
-  Emit = "full"
+  OkPrefix = FALSE
+  SampleMod = 4
+  Emit = "all"
 INVARIANTS Inv_Refines Inv_OneDef Inv_ExportedExt Inv_FiredExplains Inv_Emit
 CHECK_DEADLOCK FALSE
